@@ -3,6 +3,9 @@ import RichModel.Lemmas.ProgressConc
 import RichModel.Lemmas.ProgressTrack
 import RichModel.Lemmas.ProgressElapsed
 import RichModel.Lemmas.ProgressRat
+import RichModel.Lemmas.ProgressWindow
+import RichModel.Lemmas.ProgressTrackFin
+import RichModel.Lemmas.ProgressFmt
 /-!
 # C12 — progress accounting is exact for any history and any interleaving
 
@@ -418,5 +421,229 @@ theorem track_thread_counts {α : Type} (cfg : Cfg) (clock : Clock) (st : State)
 
 example : (trackThread (α := Char) none 3 ['a', 'b', 'c'] [0, 1, 1, 3] State.empty).2 =
     [.addTask ⟨true, 3, 0, true, 0, []⟩, .advance 0 1, .advance 0 2, .update 0 ⟨none, some 3, none, none, true, none, []⟩] := by decide
+
+/-! ## the sample window of `speed` (deepening round 4) -/
+
+/-- **Speed is taken over the last `speed_estimate_period` only.**  On a monotone clock with a
+non-negative period, after any history the time span `speed` divides by is positive and at most the
+period (the loop `while _progress and _progress[0].timestamp < old_sample_time: popleft()`), whatever
+the amounts. -/
+theorem speed_window (cfg : Cfg) (clock : Clock) (hm : Mono clock) (hp : 0 ≤ cfg.period) (ops : List Op) :
+    ∀ t ∈ (run cfg clock ops State.empty).tasks, ∀ n d, t.speed = some (n, d) → 0 < d ∧ d ≤ cfg.period := by
+  intro t ht n d hs
+  exact speed_of_WOK (run_WOK cfg clock hm hp ops t ht) n d hs
+
+/-- …and every pair of samples in the deque is within the period, the deque being sorted by timestamp. -/
+theorem samples_within_window (cfg : Cfg) (clock : Clock) (hm : Mono clock) (hp : 0 ≤ cfg.period) (ops : List Op) :
+    ∀ t ∈ (run cfg clock ops State.empty).tasks,
+      List.Pairwise (fun a b : Sample => a.ts ≤ b.ts) t.samples ∧
+      ∀ s ∈ t.samples, ∀ s' ∈ t.samples, s'.ts - s.ts ≤ cfg.period := by
+  intro t ht
+  have := run_WOK cfg clock hm hp ops t ht
+  exact ⟨this.1, this.2.2⟩
+
+/-- **At most 1000 + 1 samples** (`while len(_progress) > 1000: popleft()`, then one append), for every
+history on every clock, starting from any state that meets the bound. -/
+theorem samples_bounded (cfg : Cfg) (clock : Clock) (ops : List Op) (st : State)
+    (h : ∀ t ∈ st.tasks, t.samples.length ≤ cfg.maxLen + 1) :
+    ∀ t ∈ (run cfg clock ops st).tasks, t.samples.length ≤ cfg.maxLen + 1 :=
+  run_LenOK cfg clock ops st h
+
+/-- the bound is reached: maxLen = 2, four advances inside the window leave 3 samples; with period 2 the
+same history keeps only the samples of the last two ticks -/
+example :
+    (run ⟨30, 2, 1, false, 0⟩ (fun k => (k : Int)) [.addTask ⟨true, 10, 0, true, 0, []⟩, .advance 0 1, .advance 0 1, .advance 0 1, .advance 0 1]
+      State.empty).tasks.map (fun t => (t.samples.length, t.speed)) = [(3, some (2, 2))] ∧
+    (run ⟨2, 1000, 1, false, 0⟩ (fun k => (k : Int)) [.addTask ⟨true, 10, 0, true, 0, []⟩, .advance 0 1, .advance 0 1, .advance 0 1, .advance 0 1]
+      State.empty).tasks.map (fun t => (t.samples, t.speed)) = [([⟨2, 1⟩, ⟨3, 1⟩, ⟨4, 1⟩], some (2, 2))] := by decide
+
+/-! ## track(): total vs length -/
+
+/-- `Progress.track` (no helper thread) on a new task with *any* total and *any* number of elements:
+the total stays what was announced, `completed` is the number of elements, and the task is finished
+exactly when at least one element was yielded and the total does not exceed the number of elements
+(`add_task` itself never finishes a task: an empty sequence with total 0 leaves it unfinished). -/
+theorem track_finishes_iff {α : Type} (cfg : Cfg) (clock : Clock) (st : State) (hwf : WF st) (total : Int) (xs : List α) :
+    ∃ t, lookup (run cfg clock (trackSeq none total xs st).2 st).tasks st.nextId = some t ∧
+      t.completed = xs.length ∧ t.total = total ∧ t.started = true ∧
+      (t.finished = true ↔ (0 < xs.length ∧ total ≤ xs.length)) := by
+  simp only [trackSeq, trackOpen, trackId, Option.getD_none, run]
+  obtain ⟨t0, hl, hc, ht, hf, hs⟩ := step_addTask_started cfg clock st hwf ⟨true, total, 0, true, 0, []⟩ rfl
+  have hwf' := (step_WF cfg clock (.addTask ⟨true, total, 0, true, 0, []⟩) st hwf).1
+  obtain ⟨t', hl', hs', ht', hc', hf'⟩ := run_advances_one cfg clock st.nextId xs _ hwf' t0 hl hs
+  refine ⟨t', hl', by rw [hc', hc]; simp, by rw [ht', ht], hs', ?_⟩
+  unfold Task.finished
+  rw [hf', hf, ht, hc]
+  simp
+
+example : (run ⟨30, 1000, 1, false, 0⟩ (fun k => (k : Int)) (trackSeq (α := Nat) none 2 [7, 8, 9] State.empty).2 State.empty).tasks.map
+    (fun t => (t.completed, t.finished, t.finishedTime)) = [(3, true, some 3)] := by decide
+example : (run ⟨30, 1000, 1, false, 0⟩ (fun k => (k : Int)) (trackSeq (α := Nat) none 0 [] State.empty).2 State.empty).tasks.map
+    (fun t => (t.completed, t.finished)) = [(0, false)] := by decide
+
+/-! ## rich/filesize.py: the unit selection law -/
+
+open RichModel.ProgressFmt in
+/-- **`pick_unit_and_suffix`**, any size, any base, `n + 1` suffixes: the answer is `(base ^ i, suffixes[i])`
+with `unit ≤ size < unit · base`, except that the lower bound is dropped for the first suffix and the
+upper bound for the last one.  (An empty suffix list raises: `pickUnit _ 0 _ = none`.) -/
+theorem pick_unit_law (size base : Int) (n : Nat) :
+    pickUnit size 0 base = none ∧
+    ∃ i, pickUnit size (n + 1) base = some (base ^ i, i) ∧ i ≤ n ∧
+      (i = 0 ∨ base ^ i ≤ size) ∧ (i = n ∨ size < base ^ i * base) := by
+  refine ⟨rfl, ?_⟩
+  have h := pickFrom_spec size base n 0 1 (by simp) (Or.inl rfl)
+  refine ⟨(pickFrom size base n 0 1).2, ?_, by omega, ?_, ?_⟩
+  · simp only [pickUnit]; rw [← h.1]
+  · rw [← h.1]; exact h.2.2.2.1
+  · rw [← h.1]; rcases h.2.2.2.2 with h2 | h2
+    · left; omega
+    · right; exact h2
+
+open RichModel.ProgressFmt in
+/-- …and for a base ≥ 2 that index is *the* one the law allows: any `j` meeting the law is the answer. -/
+theorem pick_unit_unique (size base : Int) (hb : 2 ≤ base) (n i j : Nat)
+    (hi : pickUnit size (n + 1) base = some (base ^ i, i)) (hj : j ≤ n)
+    (hlow : j = 0 ∨ base ^ j ≤ size) (hup : j = n ∨ size < base ^ j * base) : j = i := by
+  obtain ⟨i', hi', hin, hl', hu'⟩ := (pick_unit_law size base n).2
+  rw [hi'] at hi
+  have hii : i' = i := by injection hi with h; injection h
+  subst hii
+  have hb1 : (1 : Int) ≤ base := by omega
+  rcases Nat.lt_trichotomy j i' with hlt | heq | hgt
+  · -- size < base^(j+1) ≤ base^i' ≤ size
+    exfalso
+    have h1 : size < base ^ j * base := by rcases hup with h | h; omega; exact h
+    have h2 : base ^ i' ≤ size := by rcases hl' with h | h; omega; exact h
+    have h3 := pow_mono_of_one_le hb1 (show j + 1 ≤ i' by omega)
+    rw [Int.pow_succ] at h3
+    omega
+  · exact heq
+  · exfalso
+    have h1 : size < base ^ i' * base := by rcases hu' with h | h; omega; exact h
+    have h2 : base ^ j ≤ size := by rcases hlow with h | h; omega; exact h
+    have h3 := pow_mono_of_one_le hb1 (show i' + 1 ≤ j by omega)
+    rw [Int.pow_succ] at h3
+    omega
+
+open RichModel.ProgressFmt in
+example : pickUnit 999999 9 1000 = some (1000, 1) ∧ pickUnit 1000000 9 1000 = some (1000000, 2) ∧
+    pickUnit (-5) 9 1024 = some (1, 0) ∧ pickUnit (1024 ^ 10) 9 1024 = some (1024 ^ 8, 8) := by decide
+
+open RichModel.ProgressFmt in
+/-- **`_to_str` / `filesize.decimal`**: `1` is `"1 byte"`, any other size below the base is printed in
+bytes, and from the base on the number shown is `base · size / base^(j+2)` for the suffix `j` with
+`base^(j+1) ≤ size < base^(j+2)` (upper bound dropped for the last suffix) — i.e. a value in `[1, base)`.
+(With no suffix at all the function raises.) -/
+theorem to_str_unit_law (size base : Int) (n : Nat) :
+    (size = 1 → toStrSel size n base = .oneByte) ∧
+    (size ≠ 1 → size < base → toStrSel size n base = .bytes size) ∧
+    (size ≠ 1 → base ≤ size → toStrSel size 0 base = .unbound) ∧
+    (size ≠ 1 → base ≤ size → ∃ j, toStrSel size (n + 1) base = .scaled (base * size) (base ^ (j + 2)) j ∧ j ≤ n ∧
+      base ^ (j + 1) ≤ size ∧ (j = n ∨ size < base ^ (j + 2))) := by
+  refine ⟨?_, ?_, ?_, ?_⟩
+  · intro h; simp [toStrSel, h]
+  · intro h1 h2; simp [toStrSel, h1, h2]
+  · intro h1 h2; have : ¬ size < base := by omega
+    simp [toStrSel, h1, this]
+  · intro h1 h2
+    have hnb : ¬ size < base := by omega
+    have h := toStrFrom_spec size base n 0 (base * base) (by rw [Int.pow_succ, Int.pow_succ]; simp) (by simpa using h2)
+    refine ⟨(toStrFrom size base n 0 (base * base)).2, ?_, by omega, h.2.2.2.1, ?_⟩
+    · simp only [toStrSel, h1, hnb, if_false]; rw [← h.1]
+    · rw [← h.1]; rcases h.2.2.2.2 with h2 | h2
+      · left; omega
+      · right; exact h2
+
+open RichModel.ProgressFmt in
+example : decimal 1 = "1 byte".toList ∧ decimal 999 = "999 bytes".toList ∧ decimal 1000 = "1.0 kB".toList ∧
+    decimal 1050 = "1.1 kB".toList ∧ decimal 1250 = "1.2 kB".toList ∧ decimal 999950 = "1,000.0 kB".toList ∧
+    decimal 1000000 = "1.0 MB".toList := by decide
+
+/-! ## what the default columns show -/
+
+open RichModel.ProgressFmt in
+/-- **`str(timedelta(seconds=n))`** (the text of `TimeRemainingColumn` / `TimeElapsedColumn`): the printed
+fields are Python's floor `divmod`s — `days·86400 + h·3600 + m·60 + s = n` with `0 ≤ h < 24`,
+`0 ≤ m, s < 60` for *every* integer `n` (negative ones borrow a day) — and the call raises
+`OverflowError` exactly when `|days| > 999999999`. -/
+theorem td_fields_spec (n : Int) :
+    (tdFields n).1 * 86400 + (tdFields n).2.1 * 3600 + (tdFields n).2.2.1 * 60 + (tdFields n).2.2.2 = n ∧
+    0 ≤ (tdFields n).2.1 ∧ (tdFields n).2.1 < 24 ∧ 0 ≤ (tdFields n).2.2.1 ∧ (tdFields n).2.2.1 < 60 ∧
+    0 ≤ (tdFields n).2.2.2 ∧ (tdFields n).2.2.2 < 60 ∧
+    (tdStr n = .error .overflow ↔ 999999999 < (n / 86400).natAbs) := by
+  have h := tdFields_spec n
+  refine ⟨h.1, h.2.1, h.2.2.1, h.2.2.2.1, h.2.2.2.2.1, h.2.2.2.2.2.1, h.2.2.2.2.2.2, ?_⟩
+  unfold tdStr
+  simp only [tdFields]
+  by_cases hov : 999999999 < (n / 86400).natAbs
+  · simp [hov]
+  · simp only [hov, if_false, iff_false]
+    by_cases hz : n / 86400 = 0 <;> simp [hz]
+
+open RichModel.ProgressFmt in
+/-- Within a day the text is `h:mm:ss`. -/
+theorem td_str_hms (n : Int) (h0 : 0 ≤ n) (h1 : n < 86400) :
+    tdStr n = .ok (natStr (n / 3600).toNat ++ ':' :: pad2 (n / 60 % 60).toNat ++ ':' :: pad2 (n % 60).toNat) := by
+  have hd : n / 86400 = 0 := by omega
+  have hm : n % 86400 = n := by omega
+  unfold tdStr
+  simp only [tdFields, hd, hm]
+  simp
+
+open RichModel.ProgressFmt in
+/-- **`TimeRemainingColumn`** shows `-:--:--` exactly when there is no estimate (`time_remaining is None`). -/
+theorem time_remaining_text_dashes (cfg : Cfg) (t : Task) :
+    timeRemainingText cfg t = .ok dashes ↔ t.timeRemaining cfg = none := by
+  unfold timeRemainingText
+  cases hr : t.timeRemaining cfg with
+  | none => simp
+  | some r =>
+    simp only [reduceCtorEq, iff_false]
+    exact tdStr_ne_dashes r
+
+open RichModel.ProgressFmt in
+example : timeRemainingText ⟨30, 1000, 4, false, 0⟩ ⟨0, 0, 10, 3, none, true, [], some 0, none, [⟨0, 1⟩, ⟨8, 2⟩]⟩ = .ok "0:00:07".toList ∧
+    tdStr 3661 = .ok "1:01:01".toList ∧ tdStr (-1) = .ok "-1 day, 23:59:59".toList ∧
+    tdStr 172800 = .ok "2 days, 0:00:00".toList ∧ tdStr (10 ^ 18) = .error .overflow := by decide
+
+open RichModel.ProgressFmt in
+/-- **`BarColumn`** hands `ProgressBar` a non-negative total and count (negative ones are clamped to 0,
+others untouched) and pulses exactly for a task that was not started. -/
+theorem bar_args_clamped (t : Task) :
+    0 ≤ (barArgs t).1 ∧ 0 ≤ (barArgs t).2.1 ∧ (0 ≤ t.total → (barArgs t).1 = t.total) ∧
+    (0 ≤ t.completed → (barArgs t).2.1 = t.completed) ∧ ((barArgs t).2.2 = true ↔ t.startTime = none) := by
+  simp only [barArgs, Task.started]
+  refine ⟨by omega, by omega, by omega, by omega, ?_⟩
+  cases t.startTime <;> simp
+
+open RichModel.ProgressFmt in
+/-- **A bar is exactly `width` cells wide** whenever the number of complete half cells it computes is at
+most `2 · width`.
+
+Full statement (not proved): `barHalves width total completed ≤ 2 * width` for every `total ≠ 0` — it is
+`⌊RN(2·width·c / total)⌋` with `0 ≤ c/total ≤ 1`, and needs monotonicity of the correctly rounded
+division `rn53`; the harness evaluates that bound on every drawn bar (`bar_cells`).  For `total = 0`
+the hypothesis holds by definition (`bar_halves_zero_total`). -/
+theorem bar_text_width_partial (width : Nat) (total completed : Int)
+    (h : barHalves width total completed ≤ 2 * width) : (barText width total completed).length = width := by
+  unfold barText
+  generalize barHalves width total completed = hv at h
+  simp only [List.length_append, List.length_replicate]
+  have h1 : hv.toNat ≤ 2 * width := by omega
+  split
+  · simp only [List.length_nil]; omega
+  · split
+    · simp only [List.length_cons, List.length_replicate]; omega
+    · simp only [List.length_replicate]; omega
+
+open RichModel.ProgressFmt in
+theorem bar_halves_zero_total (width : Nat) (completed : Int) : barHalves width 0 completed = 2 * width := by
+  simp [barHalves]
+
+open RichModel.ProgressFmt in
+example : barText 10 100 35 = "━━━╸━━━━━━".toList ∧ barText 4 8 4 = "━━╺━".toList ∧ barText 3 0 0 = "━━━".toList ∧
+    barHalves 10 100 35 = 7 ∧ pctText ⟨0, 0, 8, 1, none, true, [], none, none, []⟩ = " 12".toList ∧
+    pctText ⟨0, 0, 200, 3, none, true, [], none, none, []⟩ = "  2".toList := by decide
 
 end RichModel.C12
